@@ -35,7 +35,8 @@ QUICK_VALIDATE = 4
 def cases(tier):
     out = [dict(kind='negotiate'), dict(kind='keepalive', traffic=0), dict(kind='keepalive', traffic=1),
            dict(kind='keepalive', traffic=2),
-           dict(kind='idle', peer='silent'), dict(kind='idle', peer='alive'), dict(kind='modulate', acks=2)]
+           dict(kind='idle', peer='silent'), dict(kind='idle', peer='alive'), dict(kind='idle', peer='trickle'),
+           dict(kind='modulate', acks=2)]
     if tier == 'thorough':
         out.append(dict(kind='modulate', acks=3))
     return out
@@ -154,6 +155,37 @@ def harness(case, tier):
         c.prove(not w.escaped(), 'no-callback-exception', detail=[repr(e) for (_s, e) in w.escaped()])
         c.prove(w.a._state == 'established' and w.b._state == 'established', 'keepalives-keep-session-up')
         return {'class': cls, 'keepalives': sent_ka}
+
+    if kind == 'idle' and case['peer'] == 'trickle':
+        # traffic that is not a whole message: one message of the peer arrives in two reads, each gap shorter than the
+        # idle time but the message as a whole takes longer.  Octets received are traffic: the idle time counts
+        # from the last read.
+        c.assume(idle_a > 0)
+        c.assume(ka_b == 0)
+        d1 = c.sym_int('d1', 1, 2 ** 31 - 1)
+        d2 = c.sym_int('d2', 1, 2 ** 31 - 1)
+        c.assume(d1 < idle_a * 1000)
+        c.assume(d2 < idle_a * 1000)
+        msg = rfc9174.encode(dict(kind='XFER_SEGMENT', flags=3, transfer_id=c.sym_int('tid', 0, 2 ** 64 - 1), ext=[],
+                                  data=c.sym_blob('segdata', c.sym_int('seglen', 1, 2 ** 32, size=True))))
+        cut = [1, 5, 12, 21][c.choose(4, 'cut')]       # inside the header, or after it (inside the data)
+        GLib.STATE.now_ms = d1
+        w.ba.buf = w.ba.buf + msg[:cut]
+        w.run(300)
+        idl = [s for s in timers_of(w.a) if s.func.__name__ == '_idle_timeout']
+        c.prove(len(idl) == 1 and bool(idl[0].due == d1 + idle_a * 1000) if idl else False, 'idle-time-counts-from-last-received-octets[first read]',
+                detail=[s.due for s in idl])
+        GLib.STATE.now_ms = d1 + d2
+        w.ba.buf = w.ba.buf + msg[cut:]
+        w.run(300)
+        ma, _r = rfc9174.decode_stream(w.ab.total)
+        c.prove(not [m for m in ma if m['kind'] == 'SESS_TERM'], 'no-idle-termination-while-octets-keep-arriving',
+                detail=[m['kind'] for m in ma])
+        src = w.advance_to_next_timer()
+        c.prove(src is not None and src.func.__name__ == '_idle_timeout' and bool(GLib.STATE.now_ms == d1 + d2 + idle_a * 1000),
+                'idle-time-counts-from-last-received-octets[second read]', detail=GLib.STATE.now_ms)
+        c.prove(not w.escaped(), 'no-callback-exception[trickle]', detail=[repr(e) for (_s, e) in w.escaped()])
+        return {'class': cls}
 
     if kind == 'idle':
         c.assume(idle_a > 0)
